@@ -340,9 +340,10 @@ def raw_valid(repo, i, p):
 
 
 # ------------------------------------------------------------------ edits
-MID_KINDS = ["ebuild_content", "ebuild_touch", "ebuild_older", "ebuild_same_mtime", "ebuild_inherits",
+BOUNDARY_STAMPS = [0, 0, 1, 2 ** 31 - 1, 2 ** 31, 2 ** 32]
+MID_KINDS = ["ebuild_content", "ebuild_touch", "ebuild_older", "ebuild_boundary_mtime", "ebuild_same_mtime", "ebuild_inherits",
              "drop_inherit_key", "corrupt", "delete", "copy", "empty_eclasses", "stale_eclass_value"]
-ECLASS_KINDS = ["eclass_edit", "eclass_edit", "eclass_touch", "eclass_older", "eclass_same_mtime", "eclass_remove",
+ECLASS_KINDS = ["eclass_edit", "eclass_edit", "eclass_touch", "eclass_older", "eclass_boundary_mtime", "eclass_same_mtime", "eclass_remove",
                 "eclass_move", "eclass_shadow", "eclass_add", "overlay_shadows_master", "overlay_shadows_master",
                 "overlay_copy_removed"]
 ALL_KINDS = MID_KINDS + ECLASS_KINDS + ECLASS_KINDS + ["toggle_ro", "none"]
@@ -363,7 +364,10 @@ def edit(repo, rng, mid_session):
         t = repo.tick()
         os.utime(repo.ebuild(p), (t, t))
     elif k == "ebuild_older":                            # the mtime moves backwards (e.g. a restored file)
-        t = os.stat(repo.ebuild(p)).st_mtime - rng.randint(1, 1000)
+        t = max(0, os.stat(repo.ebuild(p)).st_mtime - rng.randint(1, 1000))
+        os.utime(repo.ebuild(p), (t, t))
+    elif k == "ebuild_boundary_mtime":                   # epoch 0 / 1 / around 2^31, 2^32 (normalised trees, snapshots)
+        t = rng.choice(BOUNDARY_STAMPS)
         os.utime(repo.ebuild(p), (t, t))
     elif k == "ebuild_same_mtime":
         repo.write_ebuild(p, inh, keep_mtime=True)
@@ -371,7 +375,8 @@ def edit(repo, rng, mid_session):
     elif k == "ebuild_inherits":
         other = repo.ebuild_inherits(rng.choice(repo.pkgs))
         repo.write_ebuild(p, list(other) if rng.random() < 0.5 else rng.sample(ECL, rng.randint(0, 3)))
-    elif k in ("eclass_edit", "eclass_touch", "eclass_older", "eclass_same_mtime", "eclass_remove", "eclass_move") and files:
+    elif k in ("eclass_edit", "eclass_touch", "eclass_older", "eclass_boundary_mtime", "eclass_same_mtime", "eclass_remove",
+               "eclass_move") and files:
         used = {n for q in repo.pkgs for n in repo.ebuild_inherits(q)}
         pref = [f for f in files if f[1] in used]
         r, n = rng.choice(pref if pref and rng.random() < 0.8 else files)      # mostly an inherited eclass
@@ -383,7 +388,10 @@ def edit(repo, rng, mid_session):
             t = repo.tick()
             os.utime(q, (t, t))
         elif k == "eclass_older":
-            t = os.stat(q).st_mtime - rng.randint(1, 1000)
+            t = max(0, os.stat(q).st_mtime - rng.randint(1, 1000))
+            os.utime(q, (t, t))
+        elif k == "eclass_boundary_mtime":
+            t = rng.choice(BOUNDARY_STAMPS)
             os.utime(q, (t, t))
         elif k == "eclass_same_mtime":
             repo.write_eclass(r, n, keep_mtime=True)
@@ -493,13 +501,18 @@ def matrix_cell(root, rng, cell):
     """a repository whose cache T (layout, writable/read-only) holds, for pkg-1, an entry of the given
     shape; T is the only cache, or comes after an empty writable cache, or before a cache with a
     valid entry.  pkg-2 inherits the same eclasses and keeps a valid entry."""
-    lay, ro, shape, pos = cell
+    lay, ro, shape, pos, stamps = cell
     inh = [] if shape == "no_eclasses" else ["e1", "e3"]
     caches = {"only": [(lay, False)], "after-empty": [(lay, False), (lay, False)],
               "before-valid": [(lay, False), (lay, False)]}[pos]
     repo = Repo(root, rng, spec={"nstack": 2, "caches": caches, "pkgs": ["pkg-1", "pkg-2"],
                                  "inherits": {"pkg-1": inh, "pkg-2": ["e1", "e3"]}})
-    hist = [f"matrix cell: layout={lay} cache T {'read-only' if ro else 'writable'}, pkg-1 entry shape={shape}, position={pos}"]
+    hist = [f"matrix cell: layout={lay} cache T {'read-only' if ro else 'writable'}, pkg-1 entry shape={shape}, position={pos}, stamps={stamps}"]
+    if stamps == "epoch":                       # boundary values: mtime exactly 0 (ebuilds, one eclass) and 1
+        for p in repo.pkgs:
+            os.utime(repo.ebuild(p), (0, 0))
+        for j, (r, n) in enumerate(repo.eclass_files()):
+            os.utime(os.path.join(repo.dirs[r], n + ".eclass"), (j % 2, j % 2))
     sess = Session(repo)
     for p in repo.pkgs:                         # populate cache 0 (all caches writable for now)
         sess.read(p)
@@ -542,7 +555,7 @@ def main(chk: Check):
     chk.rule("histories over random on-disk repositories (2-3 packages with equal/overlapping inherit lists, 1-2 "
              "stacked eclass dirs, 1-3 caches of either layout, read-only / unwritable ones included): 2-4 sessions, "
              "each one long-lived repository object reading every package in random order (sometimes one twice); "
-             "24 kinds of edit (overlay starts / stops shadowing a master's eclass, ebuild content/touch/older mtime/content-with-same-mtime/inherit list, eclass edit/"
+             "26 kinds of edit (boundary mtimes 0/1/2^31/2^32 for ebuilds and eclasses, overlay starts / stops shadowing a master's eclass, ebuild content/touch/older mtime/content-with-same-mtime/inherit list, eclass edit/"
              "touch/older/same-mtime/removal/move between stacked repos/shadowing/addition, entry without INHERIT, "
              "corrupt/deleted/copied entry, empty or stale _eclasses_, read-only toggle) before every session and "
              "(ebuild / entry kinds) between the reads of a session; non-trivial = distinct (world, cache states) "
@@ -612,13 +625,15 @@ def main(chk: Check):
         cells = []
         for cp in sorted((VERIF / "corpus" / "C48").glob("*.json")):
             for c in json.loads(cp.read_text())["cells"]:
-                cells.append((c["layout"], c["ro"], c["shape"], c["position"]))
+                cells.append((c["layout"], c["ro"], c["shape"], c["position"], c.get("stamps", "normal")))
         for lay in ("md5", "flat"):
             for ro in (False, True):
                 for shape in SHAPES:
                     for pos in (POSITIONS if shape in ("valid", "no_inherit", "stale_ebuild") else POSITIONS[:1]):
-                        if (lay, ro, shape, pos) not in cells:
-                            cells.append((lay, ro, shape, pos))
+                        for stamps in (("normal", "epoch") if shape in ("valid", "stale_eclass", "no_eclasses", "no_inherit") and pos == "only"
+                                       else ("normal",)):
+                            if (lay, ro, shape, pos, stamps) not in cells:
+                                cells.append((lay, ro, shape, pos, stamps))
         for ci, cell in enumerate(cells):
             root = os.path.join(base, f"m{ci}")
             os.makedirs(root)
